@@ -52,7 +52,7 @@ def run_chain_loop(ctx, pfx, A, ev, chain0, nc, nd, sp, inlined_chain=None, out_
     if len(outs) != 1 or stepres is None:
         ctx.unknown(pfx + '.guard_row_value', A, 'store', why='expected one output buffer carried through the loop (found %d)' % len(outs), sp=ls.sp)
         ctx.unknown(pfx + '.alloc', A, 'alloc', why='output buffer not identified', sp=ls.sp)
-        return ls
+        return None
     ok_ = outs[0]
     lh = ls.lh[ok_]
     row = T.app('row_mut', T.sub(it, nd))
